@@ -150,25 +150,35 @@ structure CtxOk (c : EofCtx) : Prop where
   depth : c.retStack.length ≤ 1024
   frames : FramesOk c.sections c.types c.curIdx c.retStack
 
+/-- the parts of a container that execution never changes -/
+structure StaticEq (K c : EofCtx) : Prop where
+  sections : c.sections = K.sections
+  types : c.types = K.types
+  containers : c.containers = K.containers
+  data : c.data = K.data
+
 /-- what holds of every state `run` reaches between two instructions of EOF code: the basic invariant, a
 well-formed container with a valid function stack, the running code is the current section and the instruction
 pointer is at one of its instruction boundaries -/
-structure InvE (s : IState) : Prop extends Base s where
+structure InvE (K : EofCtx) (s : IState) : Prop extends Base s where
   isEof : s.isEof = true
   jt : s.jumpTable = []
   ctx : ∃ c sec, s.eof = some c ∧ CtxOk c ∧ c.sections[c.curIdx]? = some sec ∧ s.code = sec
     ∧ s.pc ∈ boundaries sec
+  /-- the container is still the one the frame started with (up to the function stack) -/
+  static : ∀ c, s.eof = some c → StaticEq K c
 
-theorem invE_loop : LoopInv InvE :=
+theorem invE_loop (K : EofCtx) : LoopInv (InvE K) :=
   ⟨fun _ h => h.toBase,
    fun s x h hs hb =>
     { toBase := hb
       isEof := by rw [hs.isEof]; exact h.isEof
       jt := by rw [hs.jt]; exact h.jt
-      ctx := by rw [hs.eofc, hs.code, hs.pc]; exact h.ctx }⟩
+      ctx := by rw [hs.eofc, hs.code, hs.pc]; exact h.ctx
+      static := by rw [hs.eofc]; exact h.static }⟩
 
 /-- `InvE` gives the instruction pointer inside the section (`pc_in_bounds` for EOF) -/
-theorem InvE.pc_lt {s : IState} (h : InvE s) : s.pc < s.code.length := by
+theorem InvE.pc_lt {K : EofCtx} {s : IState} (h : InvE K s) : s.pc < s.code.length := by
   obtain ⟨c, sec, _, hok, hsec, hcode, hpc⟩ := h.ctx
   rw [hcode]
   exact ((hok.wf.secs _ _ hsec).2.2 _ hpc).1
